@@ -540,6 +540,12 @@ def run(tier: str, seed: int) -> list[Part]:
         part.counters["tlc_wall_s"] = res.wall_s
         part.wall_s = time.time() - t0
         parts.append(part)
+    kf = run_tlc("MC_Iter.tla", "IterKF29.cfg", expect_violation=True, heap="3g")
+    if kf.violated != "ExecOnce":
+        raise MachineryError(f"companion IterKF29 no longer violates ExecOnce (got {kf.violated})")
+    p = Part(name="iterprogram:F29-companion", cfg="IterKF29.cfg", states=max(kf.distinct, 1), transitions=max(kf.generated, 1))
+    p.notes.append("TLC counterexample re-derives F29 from the pinned-commit rule: execute() had already executed the target of an extension operation before handing the target relation to apply_custom_unary_operation")
+    parts.append(p)
     if tier == "thorough":
         parts.append(_simulated(seed))
     return parts
